@@ -801,7 +801,17 @@ func (x *vc) evalCall(env *cenv, e *cexpr) Val {
 			}
 			x.fresh++
 			r := fmt.Sprintf("fr_%s!%d", mangle(n), x.fresh)
-			cs = append(cs, fmt.Sprintf("(forall ((%s Int)) (=> (and (<= 0 %s) (< %s %s)) (= (select %s %s) (select %s %s))))", r, r, r, env.old.nextRef, cur, r, old, r))
+			// frame(x, y): ... except the object y (a slice's backing array, a map)
+			except := "true"
+			if len(e.args) > 1 {
+				ev := x.eval(env, e.args[1])
+				ref := ev.T
+				if x.srt.sortOf(ev.Typ) == sSlice {
+					ref = app("sl_arr", ev.T)
+				}
+				except = not(eq(r, ref))
+			}
+			cs = append(cs, fmt.Sprintf("(forall ((%s Int)) (=> (and (<= 0 %s) (< %s %s) %s) (= (select %s %s) (select %s %s))))", r, r, r, env.old.nextRef, except, cur, r, old, r))
 		}
 		return Val{T: and(cs...), Typ: boolT}
 	case "payload": // payload(x): the pointer held by interface value x (0 for a typed nil pointer)
@@ -810,6 +820,27 @@ func (x *vc) evalCall(env *cenv, e *cexpr) Val {
 	case "deref": // deref(p): content of the cell / object p points to
 		v := x.eval(env, e.args[0])
 		return x.load(env.st, v)
+	case "has": // has(m, k): k is a key of map m
+		m := x.eval(env, e.args[0])
+		k := x.eval(env, e.args[1])
+		mt, ok := m.Typ.Underlying().(*types.Map)
+		if !ok {
+			x.cfail("has(m, k): m must be a map")
+		}
+		d, _, _ := x.mapArrs(env.st, mt)
+		return Val{T: and(not(eq(m.T, "0")), app("select", app("select", env.st.heap[d], m.T), k.T)), Typ: boolT}
+	case "off": // off(s): position of s[0] in its backing array
+		v := x.eval(env, e.args[0])
+		if x.srt.sortOf(v.Typ) != sSlice {
+			x.cfail("off(x): x must be a slice")
+		}
+		return Val{T: app("sl_off", v.T), Typ: intT}
+	case "arr": // arr(s): the backing array (object identity) of slice s
+		v := x.eval(env, e.args[0])
+		if x.srt.sortOf(v.Typ) != sSlice {
+			x.cfail("arr(x): x must be a slice")
+		}
+		return Val{T: app("sl_arr", v.T), Typ: intT}
 	case "b2i":
 		return Val{T: ite(x.evalBool(env, e.args[0]), "1", "0"), Typ: intT}
 	case "same": // exact representation equality (same bytes, offset and length for strings)
